@@ -193,6 +193,10 @@ func individualAtoms() []*reNode {
 		leaf(`[\x09\x0A\x0D\x20]`, rsOf(9, 10, 13, 32)),
 		leaf(`[^a-z0-9]`, rsNegASCII(rsUnion(rsRange('a', 'z'), rsDigit))),
 		leaf(`[\x01-\x7F]`, rsASCII), leaf(".", rsASCII),
+		// negated groups that list characters beyond ASCII, and DEL at the edge of the 7-bit table
+		leaf(`[^\x0100]`, rsNegASCII(rsOf())), leaf(`[^a\x0100]`, rsNegASCII(rsOf('a'))), leaf(`[^\x0370-\x0373z]`, rsNegASCII(rsOf('z'))),
+		leaf(`[^0-9\x00E9\x4E2D-\x4E2F]`, rsNegASCII(rsDigit)), leaf(`[^\x7F]`, rsNegASCII(rsOf(0x7F))), leaf(`[^\x01-\x1F\x7F]`, rsNegASCII(rsUnion(rsRange(1, 0x1F), rsOf(0x7F)))),
+		leaf(`[^\x40-\x7F]`, rsNegASCII(rsRange(0x40, 0x7F))), leaf(`[^\x7E-\x80]`, rsNegASCII(rsRange(0x7E, 0x7F))), leaf(`[\x7F]`, rsOf(0x7F)), leaf(`[\x7E-\x80]`, rsRange(0x7E, 0x80)),
 	)
 	return out
 }
